@@ -347,10 +347,9 @@ func (d *utf8Decoder) accepts(k int, v int64) (bool, string) {
 	return !rejected, ""
 }
 
-func runC14(c *Ctx) {
+// ruleEncRawSet extracts the per-class table of each encoder (shared by C14 and C15).
+func ruleEncRawSet(c *Ctx) (map[string][]encClass, map[string][][2]int64) {
 	R := c.R
-	_, s := c.Std()
-
 	encoders := []string{"encodeXtext", "encodeUTF8AddrXtext", "encodeUTF8AddrUnitext"}
 	tables := map[string][]encClass{}
 	R.Rule("R-enc-raw-set", "E5 interval-class extraction", "for each encoder every class of the rune is decided: written unchanged, or escaped as introducer + upper-case hex (+ trailer)", 20)
@@ -383,6 +382,38 @@ func runC14(c *Ctx) {
 		}
 		R.Extra["table_"+en] = rows
 	}
+
+	// every exit of an encoder returns the builder filled by the loop: no path hands back the raw input
+	for _, en := range encoders {
+		f := c.A.Func(en)
+		if f == nil {
+			continue
+		}
+		var header *ssa.BasicBlock
+		allInstrs(f, func(in ssa.Instruction) {
+			if n, ok := in.(*ssa.Next); ok && n.IsString {
+				header = n.Block()
+			}
+		})
+		allInstrs(f, func(in ssa.Instruction) {
+			r, ok := in.(*ssa.Return)
+			if !ok || in.Block() == f.Recover {
+				return
+			}
+			d := describe(returnedValues(r)[0])
+			okRet := strings.HasPrefix(d, "(*strings.Builder).String(") && header != nil && header.Dominates(in.Block())
+			R.Ob(c.siteKey(in, "returns the encoded builder"), c.P.InstrPos(in), okRet, en+" can return "+d+" without running every character through the encoding loop")
+		})
+	}
+	return tables, rawSets
+}
+
+func runC14(c *Ctx) {
+	R := c.R
+	_, s := c.Std()
+
+	encoders := []string{"encodeXtext", "encodeUTF8AddrXtext", "encodeUTF8AddrUnitext"}
+	tables, rawSets := ruleEncRawSet(c)
 
 	R.Rule("R-enc-dec-disjoint", "E8 table agreement", "no character an encoder passes through is special to the receiving side: decoder escape introducer / disallowed class, '=' and the separators parseArgs splits on, CR, LF, and (for the ASCII forms) anything outside printable ASCII", 9)
 	hexPat, ok1 := regexLiteral(c, "hexcharRe")
@@ -437,6 +468,43 @@ func runC14(c *Ctx) {
 	R.Ob("parseArgs/separator set recognised", "-", isSep != nil, "parseArgs splits parameters with "+sepDesc+": the rule cannot derive the separator set")
 	R.Extra["parseArgs_separators"] = sepDesc
 	spaceCands := []int64{0x85, 0xA0, 0x1680, 0x2000, 0x2001, 0x2002, 0x2003, 0x2004, 0x2005, 0x2006, 0x2007, 0x2008, 0x2009, 0x200A, 0x2028, 0x2029, 0x202F, 0x205F, 0x3000}
+	// structural separators inside parameter values: a split at EVERY occurrence makes the separator special
+	var valueSeps []rune
+	for _, x := range []struct{ fn, sep string }{{"decodeTypedAddress", ";"}} {
+		g := c.A.Func(x.fn)
+		if g == nil {
+			continue
+		}
+		bounded := false
+		found := false
+		allInstrs(g, func(in ssa.Instruction) {
+			cc := callCommon(in)
+			if cc == nil || staticCallee(cc) == nil {
+				return
+			}
+			switch qualFuncName(staticCallee(cc)) {
+			case "strings.SplitN":
+				if k, ok := constString(cc.Args[1]); ok && k == x.sep {
+					found = true
+					if n, ok := constInt(cc.Args[2]); ok && n == 2 {
+						bounded = true
+					}
+				}
+			case "strings.Cut":
+				if k, ok := constString(cc.Args[1]); ok && k == x.sep {
+					found, bounded = true, true
+				}
+			case "strings.Split":
+				if k, ok := constString(cc.Args[1]); ok && k == x.sep {
+					found = true
+				}
+			}
+		})
+		R.Ob(x.fn+"/splits type and address on '"+x.sep+"'", c.P.Pos(g.Pos()), found, "type/address separator not found")
+		if found && !bounded {
+			valueSeps = append(valueSeps, rune(x.sep[0]))
+		}
+	}
 	checkDisjoint := func(en, what string, pred func(int64) bool) {
 		bad := ""
 		for _, iv := range rawSets[en] {
@@ -452,6 +520,14 @@ func runC14(c *Ctx) {
 			continue
 		}
 		checkDisjoint(en, "CR or LF", func(v int64) bool { return v == '\r' || v == '\n' })
+		checkDisjoint(en, "a separator the ORCPT decoder splits the address at (it must only split off the type)", func(v int64) bool {
+			for _, r := range valueSeps {
+				if int64(r) == v {
+					return true
+				}
+			}
+			return false
+		})
 		checkDisjoint(en, "the key/value separator '='", func(v int64) bool { return v == '=' })
 		if isSep != nil {
 			checkDisjoint(en, "a parameter separator of parseArgs ("+sepDesc+")", func(v int64) bool { return isSep(rune(v)) })
